@@ -782,6 +782,53 @@ def run(ctx):
             rts = [rt_ for rt_ in root_tests if rt_ in walk["blocks"]]
             order_ok = bool(collect_heads) and bool(rts) and all(any(gb.dominates(ch_, rt_) for ch_ in collect_heads) for rt_ in rts)
         ctx.ob("CHAIN", "collect-before-root-test", order_ok is True, "within one step of the walk the current item's matrices are collected before the `parent_index == -1` test can end it (a root item contributes its own matrices)", gb.file, gb.line)
+        # polarity of the three tests: which side of each comparison leaves the walk / answers None
+        def _eq_targets(bi_):
+            t_ = gb.blocks[bi_]["t"]
+            r_ = ix.resolve(t_["a"])
+            zero = [int(tg) for v_, tg in t_["arms"] if int(v_) == 0]
+            if not zero or not isinstance(t_.get("else"), int):
+                return None
+            return (t_["else"], zero[0]) if r_[1]["op"] == "Eq" else (zero[0], t_["else"])  # (operands equal, operands differ)
+
+        def _none_only(start):
+            # every return reachable from `start` without re-entering the walk produces None
+            seen_, todo_, prod = set(), [start], set()
+            while todo_:
+                x = todo_.pop()
+                if x in seen_ or gb.blocks[x]["cleanup"]:
+                    continue
+                seen_.add(x)
+                for st_ in gb.blocks[x]["s"]:
+                    rv_ = st_.get("rv") or {}
+                    if st_.get("k") == "assign" and st_["lhs"]["l"] == 0 and not st_["lhs"]["p"] and rv_.get("k") == "agg":
+                        prod.add(rv_.get("variant"))
+                todo_ += list(gb.succ(x))
+            return prod
+
+        pol = {}
+        for bi_, blk_ in enumerate(gb.blocks):
+            t_ = blk_["t"]
+            if t_["k"] != "switch" or blk_["cleanup"] or blk_.get("clone"):
+                continue
+            r_ = ix.resolve(t_["a"])
+            if not (r_[0] == "rv" and r_[1]["k"] == "bin" and r_[1]["op"] in ("Eq", "Ne")):
+                continue
+            sides_ = [(P.source_name(ix, x_), ix.resolve(x_)) for x_ in (r_[1]["a"], r_[1]["b"])]
+            tg = _eq_targets(bi_)
+            if tg is None:
+                continue
+            m1 = any(rr_[0] == "const" and rr_[1] in (-1, 0xFFFF) for _n, rr_ in sides_)
+            da_, db_ = derive(ix, r_[1]["a"]), derive(ix, r_[1]["b"])
+            if any(n_ == "parent_index" for n_, _r in sides_) and m1 and walk:
+                pol["root"] = tg[0] not in walk["blocks"] and tg[1] in walk["blocks"]
+            if any(n_ == "body_id" for n_, _r in sides_) and any(rr_[0] == "param" and rr_[1] == 3 for _n, rr_ in sides_) and walk:
+                pol["target"] = tg[0] not in walk["blocks"] and (tg[1] in walk["blocks"] or tg[1] == walk["head"])
+            if any(n_ == "next_sibling_index" for n_, _r in sides_) and m1:
+                pol["sibling"] = _none_only(tg[0]) == {"None"} and "Some" in _none_only(tg[1])
+            if (da_.params | db_.params) == {2, 3} and not (da_.names | db_.names):
+                pol["identity"] = _none_only(tg[0]) == {"None"} and "Some" in _none_only(tg[1])
+        ctx.ob("CHAIN", "test-polarity", pol.get("root") is True and pol.get("target") is True and pol.get("sibling") is True and pol.get("identity") is True, f"sides of the walk's tests: a root link (parent_index == -1) and the target item (body_id == to) leave the walk, a start item without siblings (next_sibling_index == -1) and an identity query answer None: {pol}", gb.file, gb.line)
         ctx.ob("CHAIN", "stop-at-root", root_ok, "the walk stops at a link whose parent_index is -1", gb.file, gb.line)
         ctx.ob("CHAIN", "identity-query", same_ok, "from_body_id == to_body_id is answered with None before any lookup", gb.file, gb.line, trivial=True)
 
